@@ -33,7 +33,7 @@ TRUSTED = [
     'axioms printed by Print Assumptions: the standard-library real-number axioms (ClassicalDedekindReals.sig_not_dec, '
     'sig_forall_dec, functional_extensionality_dep) and Classical_Prop.classic (Coquelicot)',
     'Section hypothesis (premise of the Gaussian theorems): erf is differentiable with derivative 2/sqrt(pi) exp(-x^2)',
-    'translator/py2coq.py: per-element reading of the numpy formulas of flux_model.py / math.py (85 kernels of G_flux.v, '
+    'translator/py2coq.py: per-element reading of the numpy formulas of flux_model.py / math.py (97 kernels of G_flux.v, '
     'each pinned by one K_ lemma)',
     'hand model M_Flux.v of class dispatch, setter / set_params plumbing, constructors, deepcopy as allocation in an '
     'explicit store; validated by this correspondence',
@@ -119,6 +119,19 @@ def build_obj(e, store, o):
     raise ValueError(k)
 
 
+def build_objs(e, store, o):
+    """objects one entry of case['objs'] adds to the store (PointlikeFFM / SteadyPointlikeFFM create their
+    own point profile (and unity time profile): these come first, then the model)"""
+    fm, cfg = e['fm'], e['cfg']
+    if o[0] == 'PF':       # ['PF', Phi0, le, lt, ra, dec]
+        m = fm.PointlikeFFM(Phi0=o[1], energy_profile=store[o[2]], time_profile=store[o[3]], ra=o[4], dec=o[5], cfg=cfg)
+        return [m.spatial_profile, m]
+    if o[0] == 'SF':       # ['SF', Phi0, le, ra, dec, tu]
+        m = fm.SteadyPointlikeFFM(Phi0=o[1], energy_profile=store[o[2]], ra=o[3], dec=o[4], time_unit=e['TU'][o[5]], cfg=cfg)
+        return [m.spatial_profile, m.time_profile, m]
+    return [build_obj(e, store, o)]
+
+
 def is_model(e, x):
     return isinstance(x, e['fm'].FactorizedFluxModel)
 
@@ -138,6 +151,8 @@ def apply_op(e, store, op):
         store[op[1]].set_params(dict((n, v) for n, v in op[2]))
     elif k == 'SA':
         setattr(store[op[1]], op[2], op[3])     # a non-property name just creates an attribute
+    elif k == 'SAP':      # ['SAP', l, ls, name, v]: IsPointlike property of the model at l; writes the point profile at ls
+        setattr(store[op[1]], op[3], op[4])
     elif k == 'MV':
         x = store[op[1]]
         x.move(op[2], unit=uarg(e['TU'], op[3]))
@@ -178,9 +193,16 @@ def state_tokens(e, x):
     raise ValueError(type(x))
 
 
+def maybe_int(v):
+    """integral argument values are handed to the implementation as Python ints (dtype independence)"""
+    return int(v) if isinstance(v, float) and math.isfinite(v) and v == int(v) and abs(v) < 2 ** 40 else v
+
+
 def observe(e, store, ob):
     fm = e['fm']
     k = ob[0]
+    if k in ('EC', 'EI', 'TC', 'TI', 'CD'):
+        ob = ob[:3] + [maybe_int(v) for v in ob[3:]]
     x = store[ob[1]] if ob[1] < len(store) else None
     if k in ('EC', 'EI'):
         if not isinstance(x, fm.EnergyFluxProfile):
@@ -204,6 +226,10 @@ def observe(e, store, ob):
         if k == 'CD':
             return [float(x.cdf(ob[3], unit=U)[0])]
         return [float(np.atleast_1d(x.get_integral(ob[3], ob[4], unit=U))[0])]
+    if k == 'PR':         # ['PR', l, ls]: IsPointlike getters of a pointlike model
+        if not isinstance(x, fm.PointlikeFFM):
+            return ['E:TypeError', 'E:TypeError']
+        return [float(x.ra), float(x.dec)]
     if k == 'TU':
         if not is_model(e, x):
             return ['E:TypeError']
@@ -216,7 +242,8 @@ def observe(e, store, ob):
         if not is_model(e, x):
             return ['E:TypeError']
         (_, _, hr, ra, dec, he, E, ht, t, eu, tu) = ob
-        v = x(ra=ra if hr else None, dec=dec if hr else None, E=E if he else None, t=t if ht else None,
+        E, t = maybe_int(E), maybe_int(t)
+        v = x(ra=ra if hr in (1, 2) else None, dec=dec if hr in (1, 3) else None, E=E if he else None, t=t if ht else None,
               energy_unit=uarg(e['EU'], eu), time_unit=uarg(e['TU'], tu))
         assert v.shape == (1, 1, 1), v.shape
         return [float(v[0, 0, 0])]
@@ -237,7 +264,7 @@ def run_impl(e, case):
     store = []
     try:
         for o in case['objs']:
-            store.append(build_obj(e, store, o))
+            store += build_objs(e, store, o)
         for op in case['ops']:
             if op[1] >= len(store):
                 raise IndexError(op[1])
@@ -261,21 +288,37 @@ def tok(x):
 
 
 def model_line(case):
-    t = [str(len(case['objs']))]
+    objs = []
+    n = 0
     for o in case['objs']:
+        if o[0] == 'PF':
+            objs += [['PT', o[4], o[5]], ['FM', o[1], n, o[2], o[3]]]; n += 2
+        elif o[0] == 'SF':
+            objs += [['PT', o[3], o[4]], ['UT', o[5], -math.inf, math.inf], ['FM', o[1], n, o[2], n + 1]]; n += 3
+        else:
+            objs.append(o); n += 1
+    t = [str(len(objs))]
+    for o in objs:
         t += [tok(x) for x in o]
     t.append(str(len(case['ops'])))
     for op in case['ops']:
         if op[0] in ('SP', 'CW'):
             t += [op[0], str(op[1]), str(len(op[2]))]
-            for n, v in op[2]:
-                t += [n, fx(v)]
+            for nme, v in op[2]:
+                t += [nme, fx(v)]
+        elif op[0] == 'SAP':
+            t += ['SA', str(op[2]), op[3], fx(op[4])]
         else:
             t += [tok(x) for x in op]
-    t.append(str(len(case['obs'])))
+    nobs = 0
+    ot = []
     for ob in case['obs']:
-        t += [tok(x) for x in ob]
-    return ' '.join(t)
+        if ob[0] == 'PR':
+            ot += ['GP', str(ob[2]), 'ra', 'GP', str(ob[2]), 'dec']; nobs += 2
+        else:
+            ot += [tok(x) for x in ob]; nobs += 1
+    t.append(str(nobs))
+    return ' '.join(t + ot)
 
 
 # ------------------------------------------------------------------ comparison
@@ -283,18 +326,6 @@ def model_line(case):
 def obs_tol(case, ob, store_kinds):
     """absolute tolerance floor for one observation (conditioning of the formula, not of the model)"""
     k = ob[0]
-    if k == 'EI':
-        o = store_kinds.get(ob[1])
-        if o and o[0] == 'PL':
-            E0, g = o[2], o[3]
-            f = 1.0 if ob[2] < 0 else EFAC[ob[2]] / EFAC[o[1]]
-            a, b = abs(ob[3] * f), abs(ob[4] * f)
-            if g == 1:
-                return 1e-13 * abs(E0) * (1 + abs(math.log(b / a)) if a > 0 and b > 0 else 1)
-            try:
-                return 4e-15 * abs(E0 ** g / (1 - g)) * (b ** (1 - g) + a ** (1 - g))
-            except (OverflowError, ZeroDivisionError):
-                return math.inf
     if k == 'CD':
         return 1e-12
     if k == 'TT':
@@ -359,7 +390,7 @@ def compare(ctx, case, impl, model_out, kinds):
     # expand per observation to align tolerances
     floors = []
     for ob in case['obs']:
-        n = 1
+        n = 2 if ob[0] == 'PR' else 1
         if ob[0] == 'ST':
             n = None
         floors.append((ob, n))
@@ -435,9 +466,7 @@ def pred_integrals(ctx, e, case, store):
                 continue
             q, qerr = quad_pts(lambda E: float(x(E)[0]), a, b, [])
             g = getattr(x, '_gamma', 0.0)
-            cond = 1.0
-            if type(x) is fm.PowerLawEnergyFluxProfile and g != 1:
-                cond = 1 + 4e-16 / max(abs(1 - g) * math.log(b / a), 1e-300) / 1e-8
+            cond = 1.0        # no widening near gamma = 1: since fix 9e8285f the formula is well conditioned
             # numerically integrated profiles: the code itself uses scipy quad with its default
             # tolerances (epsabs = epsrel = 1.49e-8); ask no more than that
             num_tol = (1e-6 * max(abs(q), abs(iab)) + 1e-7) if numeric else 0.0
@@ -592,7 +621,17 @@ def spec_of(e, case):
         if k == 'FM':
             return {'k': k, 'p': {'Phi0': o[1]}, 'refs': [o[2], o[3], o[4]]}
     for o in case['objs']:
-        spec.append(newobj(o))
+        if o[0] == 'PF':
+            n = len(spec)
+            spec.append({'k': 'PT', 'p': {'ra': o[4], 'dec': o[5]}})
+            spec.append({'k': 'FM', 'p': {'Phi0': o[1]}, 'refs': [n, o[2], o[3]]})
+        elif o[0] == 'SF':
+            n = len(spec)
+            spec.append({'k': 'PT', 'p': {'ra': o[3], 'dec': o[4]}})
+            spec.append({'k': 'UT', 'u': o[5], 'p': {'t_start': -math.inf, 't_stop': math.inf}})
+            spec.append({'k': 'FM', 'p': {'Phi0': o[1]}, 'refs': [n, o[2], n + 1]})
+        else:
+            spec.append(newobj(o))
     import copy as _copy
 
     def setp(i, pd):
@@ -626,6 +665,8 @@ def spec_of(e, case):
                 s['p'][op[2]] = op[3]
             elif op[2] in ('t_start', 't_stop'):
                 s['dirty'] = True          # window edited directly: (t0, tw) bookkeeping no longer applies
+        elif k == 'SAP':
+            spec[op[2]]['p'][op[3]] = op[4]
         elif k == 'MV':
             s = spec[op[1]]
             if s['k'] in ('BX', 'GA'):
@@ -756,7 +797,7 @@ def pred_history(ctx, e, case):
     store = []
     try:
         for o in case['objs']:
-            store.append(build_obj(e, store, o))
+            store += build_objs(e, store, o)
     except Exception:
         return
     for step in range(len(case['ops']) + 1):
@@ -838,6 +879,123 @@ def pred_arguments(ctx, e, case, store):
                                   predicate='ndarray arguments unchanged; same arrays, same result')
                     a[:] = sa; b[:] = sb
         ctx.count('pred:arguments')
+
+
+def pred_dtype(ctx, e, case, store):
+    """integer arguments (Python int, int ndarray) give the same values as the equal floats"""
+    fm = e['fm']
+
+    def same(u, v):
+        return np.array_equal(np.asarray(u, dtype=float), np.asarray(v, dtype=float), equal_nan=True)
+    for l, x in enumerate(store):
+        bad = None
+        if isinstance(x, fm.EnergyFluxProfile):
+            ks = [1, 3, 250]
+            for k in ks:
+                if not same(x(k), x(float(k))):
+                    bad = ('__call__', k)
+            if not same(x(np.array(ks)), x(np.array(ks, dtype=float))):
+                bad = ('__call__', ks)
+            if type(x) in (fm.UnityEnergyFluxProfile, fm.PowerLawEnergyFluxProfile):
+                if not same(x.get_integral(1, 30), x.get_integral(1., 30.)) or \
+                        not same(x.get_integral(np.array([1, 2]), np.array([30, 40])), x.get_integral(np.array([1., 2.]), np.array([30., 40.]))):
+                    bad = ('get_integral', [1, 30])
+        elif isinstance(x, fm.TimeFluxProfile):
+            ts, te = x.t_start, x.t_stop
+            if not (math.isfinite(ts) and math.isfinite(te)):
+                ts, te = -5.0, 5.0
+            w = te - ts
+            ks = sorted({int(round(ts + r * w)) for r in (-0.4, 0.1, 0.3, 0.5, 0.8, 1.4)})
+            for k in ks:
+                if not same(x(k), x(float(k))):
+                    bad = ('__call__', k)
+                if hasattr(x, 'cdf') and not same(x.cdf(k), x.cdf(float(k))):
+                    bad = ('cdf', k)
+            if not same(x(np.array(ks)), x(np.array(ks, dtype=float))):
+                bad = ('__call__', ks)
+            if not same(x.get_integral(ks[0], ks[-1]), x.get_integral(float(ks[0]), float(ks[-1]))) or \
+                    not same(x.get_integral(np.array(ks[:-1]), np.array(ks[1:])),
+                             x.get_integral(np.array(ks[:-1], dtype=float), np.array(ks[1:], dtype=float))):
+                bad = ('get_integral', [ks[0], ks[-1]])
+        elif is_model(e, x):
+            tp = x.time_profile
+            ts, te = tp.t_start, tp.t_stop
+            if not (math.isfinite(ts) and math.isfinite(te)):
+                ts, te = -5.0, 5.0
+            for k in sorted({int(round(ts + r * (te - ts))) for r in (0.2, 0.5, 0.8)}):
+                if not same(x(E=10, t=k), x(E=10., t=float(k))):
+                    bad = ('__call__', k)
+        if bad:
+            ctx.violation(type(x).__name__ + '.' + bad[0], 'integer-argument-differs',
+                          f'integer argument {bad[1]} gives a different result than the equal float',
+                          case={'case': case, 'loc': l, 'arg': bad[1]}, predicate='f(int k) == f(float k)')
+        ctx.count('pred:dtype')
+
+
+def pred_point(ctx, e, case, store):
+    """the point profile is 1 only where BOTH coordinates match; a model evaluates its spatial profile
+    only when both ra and dec are given"""
+    fm = e['fm']
+    for l, x in enumerate(store):
+        if isinstance(x, fm.PointSpatialFluxProfile) and x._ra is not None and x._dec is not None:
+            got = [int(x(x._ra, x._dec)[0]), int(x(x._ra, x._dec + 0.25)[0]), int(x(x._ra + 0.25, x._dec)[0]),
+                   int(x(x._ra + 0.25, x._dec - 0.5)[0])]
+            if got != [1, 0, 0, 0]:
+                ctx.violation('PointSpatialFluxProfile.__call__', 'wrong-coincidence',
+                              f'values at (both, ra only, dec only, none matching) = {got}, expected [1,0,0,0]',
+                              case={'case': case, 'loc': l}, impl=got, predicate='1 iff ra and dec both match')
+        if is_model(e, x) and isinstance(x.spatial_profile, fm.PointSpatialFluxProfile):
+            sp = x.spatial_profile
+            base = float(x(E=7.0)[0, 0, 0])
+            v = [float(x(ra=sp._ra, dec=sp._dec, E=7.0)[0, 0, 0]), float(x(ra=sp._ra + 0.3, dec=sp._dec, E=7.0)[0, 0, 0]),
+                 float(x(ra=sp._ra + 0.3, E=7.0)[0, 0, 0]), float(x(dec=sp._dec + 0.3, E=7.0)[0, 0, 0])]
+            if not (v[0] == base and v[1] == 0.0 and v[2] == base and v[3] == base):
+                ctx.violation('FactorizedFluxModel.__call__', 'wrong-optional-coordinates',
+                              f'flux with (matching, non-matching, ra only, dec only) coordinates = {v}, without = {base}',
+                              case={'case': case, 'loc': l}, impl=v,
+                              predicate='spatial profile applied iff both ra and dec are given')
+            if isinstance(x, fm.PointlikeFFM) and not (x.ra == sp.ra and x.dec == sp.dec):
+                ctx.violation('PointlikeFFM.ra/dec', 'wrong-wiring', f'model ({x.ra},{x.dec}) vs profile ({sp.ra},{sp.dec})',
+                              case={'case': case, 'loc': l}, predicate='IsPointlike getters read the point profile')
+        ctx.count('pred:point')
+
+
+def pred_rv(ctx, e, case, store):
+    """skyllh.core.utils.flux_model: the scipy rv built from a time profile has pdf = profile / total integral,
+    the profile's cdf and support, integrates to 1, and describes the profile as it was when built"""
+    from skyllh.core.utils.flux_model import create_scipy_stats_rv_continuous_from_TimeFluxProfile as mk
+    fm = e['fm']
+    for l, x in enumerate(store):
+        if not isinstance(x, (fm.BoxTimeFluxProfile, fm.GaussianTimeFluxProfile)):
+            continue
+        ts, te = x.t_start, x.t_stop
+        w = te - ts
+        if not (w > 0):
+            continue
+        tot = float(x.get_total_integral())
+        pts = np.array([ts + r * w for r in (0.13, 0.4, 0.5, 0.77)])
+        rv = mk(x)
+        pdf = rv.pdf(pts)
+        want = np.asarray(x(pts), dtype=float) / tot
+        q, qerr = quad_pts(lambda t: float(rv.pdf(t)), ts, te, [0.5 * (ts + te)])
+        ok = np.allclose(pdf, want, rtol=1e-10, atol=0) and np.allclose(rv.cdf(pts), x.cdf(pts), rtol=1e-10, atol=1e-14) \
+            and abs(q - 1) <= 1e-7 + 10 * qerr and rv.a == ts and rv.b == te
+        # snapshot: a later parameter change of the profile does not reach the rv; a new rv follows the profile
+        y = x.copy()
+        rv2 = mk(y)
+        before = rv2.pdf(pts)
+        y.set_params({'tw': w * 1.5, 'sigma_t': getattr(y, '_sigma_t', 1.0) * 1.5})
+        stale = not np.array_equal(before, rv2.pdf(pts))
+        rv3 = mk(y)
+        p3 = np.array([y.t_start + r * (y.t_stop - y.t_start) for r in (0.2, 0.5, 0.9)])
+        fresh_ok = np.allclose(rv3.pdf(p3), np.asarray(y(p3), dtype=float) / float(y.get_total_integral()), rtol=1e-10, atol=0)
+        if not ok or stale or not fresh_ok:
+            ctx.violation('create_scipy_stats_rv_continuous_from_TimeFluxProfile', 'rv-differs-from-profile',
+                          f'pdf {pdf} vs {want}; integral of pdf {q}; support ({rv.a},{rv.b}) vs ({ts},{te}); '
+                          f'changed by a later update: {stale}; rv of the updated profile consistent: {fresh_ok}',
+                          case={'case': case, 'loc': l}, impl=[pdf.tolist(), q],
+                          predicate='rv.pdf == profile / total integral, rv.cdf == profile.cdf, integral 1')
+        ctx.count('pred:rv')
 
 
 def snapshot(e, x):
@@ -955,10 +1113,23 @@ def gen_case(ctx, rng, malformed=False):
     objs = [gen_obj(ctx, rng, rng.choice(SK)), gen_obj(ctx, rng, rng.choice(EK)), gen_obj(ctx, rng, rng.choice(TK))]
     kinds = [('BX' if o[0] == 'BF' else o[0]) for o in objs]
     refs = {}
-    if rng.random() < 0.7:
+    plike = set()
+    r = rng.random()
+    if r < 0.45:
         objs.append(['FM', rpos(rng, -3, 1), 0, 1, 2])
         kinds.append('FM')
         refs[3] = [0, 1, 2]
+        ctx.count('model:FactorizedFluxModel')
+    elif r < 0.65:
+        objs.append(['PF', rpos(rng, -3, 1), 1, 2, rng.uniform(0, 6.28), rng.uniform(-1.5, 1.5)])
+        kinds += ['PT', 'FM']
+        refs[4] = [3, 1, 2]; plike.add(4)
+        ctx.count('model:PointlikeFFM')
+    elif r < 0.78:
+        objs.append(['SF', rpos(rng, -3, 1), 1, rng.uniform(0, 6.28), rng.uniform(-1.5, 1.5), rng.randrange(3)])
+        kinds += ['PT', 'UT', 'FM']
+        refs[5] = [3, 1, 4]; plike.add(5)
+        ctx.count('model:SteadyPointlikeFFM')
     if malformed and rng.random() < 0.3:
         objs.append(['FM', 1.0, rng.choice([1, 2]), rng.choice([0, 1]), rng.choice([0, 2])])   # wrong profile kinds
         kinds.append('FM')
@@ -974,6 +1145,8 @@ def gen_case(ctx, rng, malformed=False):
             n = len(kinds)
             kinds.extend([kinds[j] for j in refs[l]] + ['FM'])
             refs[n + 3] = [n, n + 1, n + 2]
+            if l in plike:
+                plike.add(n + 3)
         else:
             kinds.append(kinds[l])
     ops = []
@@ -990,6 +1163,10 @@ def gen_case(ctx, rng, malformed=False):
             ctx.count('op:malformed')
             if ops[-1][0] in ('MV', 'CP') or ops[-1][1] >= len(kinds):
                 break                       # the op raises: the sequence ends here
+            continue
+        if l in plike and r < 0.3:
+            n = rng.choice(['ra', 'dec'])
+            ops.append(['SAP', l, refs[l][0], n, gen_value(ctx, rng, n)]); ctx.count('op:pointlike-setter')
             continue
         if r < 0.35:
             ns = names_of(l)
@@ -1022,6 +1199,7 @@ def gen_case(ctx, rng, malformed=False):
             scale = 1.0 if u < 0 else 1.0 / EFAC[u]
             for _ in range(2):
                 obs.append(['EC', l, u, rpos(rng, -1, 4) * scale]); ctx.count(f'unit:E:{u}')
+            obs.append(['EC', l, -1, float(rng.randint(1, 5000))]); ctx.count('integer-argument')
             a = rpos(rng, -1, 3); b = a * 10 ** rng.uniform(0, 2)
             obs.append(['EI', l, u, a * scale, b * scale])
         elif k in ('UT', 'BX', 'GA'):
@@ -1029,6 +1207,8 @@ def gen_case(ctx, rng, malformed=False):
             scale = 1.0 if u < 0 else 1.0 / TFAC[u]
             for _ in range(3):
                 obs.append(['TC', l, u, rng.uniform(-150, 150) * scale]); ctx.count(f'unit:t:{u}')
+            obs.append(['TC', l, -1, float(rng.randint(-150, 150))]); ctx.count('integer-argument')
+            obs.append(['CD', l, -1, float(rng.randint(-150, 150))]) if k in ('BX', 'GA') else None
             a = rng.uniform(-150, 100); b = a + rng.uniform(0, 120)
             obs.append(['TI', l, u, a * scale, b * scale])
             obs.append(['TT', l])
@@ -1038,8 +1218,13 @@ def gen_case(ctx, rng, malformed=False):
         elif k in ('US', 'PT'):
             obs.append(['SC', l, rng.uniform(0, 6), rng.uniform(-1, 1)])
         elif k == 'FM':
-            obs.append(['FC', l, rng.randrange(2), rng.uniform(0, 6), rng.uniform(-1, 1), rng.randrange(2), rpos(rng, 0, 3),
-                        rng.randrange(2), rng.uniform(-100, 100), rng.choice([-1, 0, 1, 2]), rng.choice([-1, 0, 1, 2])])
+            hr = rng.randrange(4)           # 0 none, 1 both, 2 ra only, 3 dec only
+            ctx.count(f'model-call-coords:{hr}')
+            tval = rng.uniform(-100, 100) if rng.random() < 0.7 else float(rng.randint(-100, 100))
+            obs.append(['FC', l, hr, rng.uniform(0, 6), rng.uniform(-1, 1), rng.randrange(2), rpos(rng, 0, 3),
+                        rng.randrange(2), tval, rng.choice([-1, 0, 1, 2]), rng.choice([-1, 0, 1, 2])])
+            if l in plike:
+                obs.append(['PR', l, refs[l][0]])
         if k == 'FM':
             obs.append(['TU', l])
         for n in rng.sample(NAMES, 3):
@@ -1085,6 +1270,25 @@ def corpus_cases():
         {'objs': [['US'], ['PL', 0, 1.0, 2.0], ['GA', 1, 10.0, 2.0, 1e-12], ['FM', 1.0, 0, 1, 2], ['BX', 0, 5.0, 4.0]],
          'ops': [['SP', 2, [['sigma_t', 5.0]]], ['SA', 4, 'tw', 10.0], ['CW', 2, [['sigma_t', 1.0]]], ['SP', 3, [['sigma_t', 3.0], ['gamma', 2.5]]]],
          'obs': [['TT', 2], ['TT', 4], ['TT', 5], ['ST', 2], ['ST', 5], ['TI', 2, -1, 0.0, 20.0]]},
+        # 9e8285f: power-law integral near gamma = 1 (cancellation): strict tolerance now
+        {'objs': [['PL', 0, 1.0, 1 + 1e-12], ['PL', 0, 100.0, 1 + 1e-14], ['PL', 1, 3.0, 1 - 1e-10], ['PL', 0, 1.0, 1.0]],
+         'ops': [], 'obs': [['EI', 0, -1, 1.0, 10.0], ['EI', 1, -1, 3.0, 3e5], ['EI', 2, 0, 1.0, 10.0], ['EI', 3, -1, 1.0, 10.0],
+                            ['EI', 1, 1, 0.003, 300.0]]},
+        # 8b4f503: integer times; point profile / optional coordinates; pointlike models and their ra / dec wiring
+        {'objs': [['US'], ['PL', 0, 1.0, 2.0], ['GA', 0, 10.0, 2.0, 1e-12], ['FM', 1.0, 0, 1, 2]], 'ops': [],
+         'obs': [['TC', 2, -1, 11.0], ['TC', 2, 1, 11.0 / 86400], ['CD', 2, -1, 11.0], ['TI', 2, -1, 9.0, 11.0],
+                 ['FC', 3, 0, 0.0, 0.0, 1, 10.0, 1, 11.0, -1, -1]]},
+        {'objs': [['PT', 1.0, 0.5], ['PL', 0, 1.0, 2.0], ['BX', 0, 5.0, 2.0], ['FM', 2.0, 0, 1, 2]], 'ops': [],
+         'obs': [['SC', 0, 1.0, 0.5], ['SC', 0, 1.0, 0.7], ['SC', 0, 2.0, 0.5], ['SC', 0, 2.0, 0.7],
+                 ['FC', 3, 1, 1.0, 0.5, 1, 3.0, 1, 5.0, -1, -1], ['FC', 3, 1, 1.0, 0.7, 1, 3.0, 1, 5.0, -1, -1],
+                 ['FC', 3, 2, 4.0, 0.5, 1, 3.0, 1, 5.0, -1, -1], ['FC', 3, 3, 1.0, 0.9, 1, 3.0, 0, 5.0, -1, -1]]},
+        {'objs': [['US'], ['PL', 0, 1.0, 2.0], ['BX', 0, 5.0, 2.0], ['PF', 2.0, 1, 2, 1.0, 0.5]],
+         'ops': [['SAP', 4, 3, 'ra', 2.0], ['CP', 4], ['SAP', 8, 5, 'dec', -0.3], ['SP', 8, [['ra', 0.25], ['gamma', 2.5]]]],
+         'obs': [['ST', 3], ['ST', 4], ['ST', 5], ['ST', 6], ['ST', 8], ['PR', 4, 3], ['PR', 8, 5], ['TU', 8],
+                 ['FC', 4, 1, 2.0, 0.5, 1, 3.0, 1, 5.0, -1, -1], ['FC', 8, 1, 0.25, -0.3, 1, 3.0, 1, 5.0, 1, 1], ['GP', 8, 'ra']]},
+        {'objs': [['US'], ['LP', 1, 2.0, 2.0, 0.1], ['SF', 1.5, 1, 0.3, 0.2, 1]], 'ops': [['SAP', 4, 2, 'dec', 0.4], ['CW', 4, [['Phi0', 3.0], ['alpha', 2.2]]]],
+         'obs': [['ST', 2], ['ST', 3], ['ST', 4], ['PR', 4, 2], ['PR', 8, 5], ['TU', 4], ['ST', 6], ['ST', 8],
+                 ['FC', 8, 1, 0.3, 0.4, 1, 0.003, 1, 7.0, 1, 2], ['GP', 8, 'alpha'], ['GP', 4, 'alpha']]},
         # 8f69f79: Ecut / alpha / beta are parameters
         {'objs': [['CO', 0, 1.0, 2.0, 10.0], ['LP', 0, 1.0, 2.0, 0.1]],
          'ops': [['SP', 0, [['Ecut', 5.0]]], ['SP', 1, [['alpha', 3.0], ['beta', 0.2]]]],
@@ -1113,6 +1317,9 @@ def run_cases(ctx, cases, exe):
             pred_integrals(ctx, e, c, store)
             pred_product(ctx, e, c, store)
             pred_arguments(ctx, e, c, store)
+            pred_dtype(ctx, e, c, store)
+            pred_point(ctx, e, c, store)
+            pred_rv(ctx, e, c, store)
             pred_history(ctx, e, c)
             pred_copy(ctx, e, c, store)
         except Exception as ex:
@@ -1144,7 +1351,7 @@ def run(ctx):
         cases.append(gen_case(ctx, rng, malformed=True))
     while len(cases) < n:
         cases.append(gen_case(ctx, rng))
-    for c in cases[5:8]:
+    for c in cases[10:13]:
         ctx.sample({'objs': c['objs'], 'ops': c['ops'], 'n_obs': len(c['obs'])})
     run_cases(ctx, cases, exe)
 
